@@ -9,6 +9,8 @@ From WW Require Import Gen.Params Base.AMap Base.Bytes Base.BytesCors Model.Sess
   Proofs.CorsP Proofs.MachineProxyP.
 (* the redirect model is required but NOT imported (its s_https etc. would shadow Model.Cors'): qualified names below *)
 From WW Require Base.BytesLit Model.GoUrl Model.Redirect Model.EntryRedirect Proofs.SpxHandoverP.
+(* the cookie model (clause 3, "scopes its cookies to that domain"): required, not imported, for the same reason *)
+From WW Require Model.Cookie Model.Jar Model.Retry Proofs.SsoProxyJarP.
 Import ListNotations.
 Open Scope N_scope.
 
@@ -319,3 +321,38 @@ Example c16_proxy_handover_nonvacuous :
   go "//evil.example/p"%string = want "https://app.example.com/p"%string /\
   Redirect.absolute_valid [BytesLit.bs "app.example.com"%string] (BytesLit.bs "http://evil.app.example.com/x"%string) = true.
 Proof. vm_compute. repeat split. Qed.
+
+(** ** Clause 3, "scopes its cookies to that domain" (Model/Cookie.v [handle]: the Set-Cookie headers of login, callback, logout,
+    local logout, logout callback and front-channel logout, error answers included; compared with the real SSO-server router
+    for consecutive failures of every endpoint by every cause on every run, `wwh ssocookies`).
+    Every Set-Cookie header of every answer of an SSO server - whatever the request carries, whatever fails, however often -
+    has Domain = sso.domain and Path=/: *)
+Theorem c16_server_cookies_scoped_to_domain : forall cfg r sc,
+  Cookie.cf_sso_server cfg = true -> In sc (Cookie.rs_cookies (Cookie.handle cfg r)) ->
+  Cookie.c_domain sc = Cookie.cf_sso_domain cfg /\ Cookie.c_path sc = Cookie.slash.
+Proof. exact SsoProxyJarP.sso_server_cookies_domain_scoped. Qed.
+Print Assumptions c16_server_cookies_scoped_to_domain.
+
+(** ... and an SSO proxy of the deployment hands the browser nothing but such cookies (the server's, relayed): *)
+Theorem c16_proxy_relays_only_domain_scoped_cookies : forall pe br q f sc,
+  Cookie.cf_sso_server (Retry.e_cfg pe) = true ->
+  In sc (Cookie.rs_cookies (fst (Retry.do_request_proxy pe br q f))) ->
+  Cookie.c_domain sc = Cookie.cf_sso_domain (Retry.e_cfg pe) /\ Cookie.c_path sc = Cookie.slash.
+Proof. exact SsoProxyJarP.sso_proxy_relays_domain_scoped. Qed.
+Print Assumptions c16_proxy_relays_only_domain_scoped_cookies.
+
+(** Non-vacuity: an SSO server for example.com; the second consecutive failure of the login endpoint (the request carries the
+    counter "1") is answered 307 with one cookie, the counter "2", Domain=example.com, Path=/. *)
+Example c16_server_cookie_scope_nonvacuous :
+  let cfg := {| Cookie.cf_secure := true; Cookie.cf_samesite := BytesLit.bs "Lax"%string; Cookie.cf_prefix := BytesLit.bs "io.nais.wonderwall"%string;
+                Cookie.cf_ingresses := [BytesLit.bs "https://sso.example.com"%string]; Cookie.cf_sso_server := true;
+                Cookie.cf_sso_domain := BytesLit.bs "example.com"%string; Cookie.cf_sso_name := BytesLit.bs "sso.session"%string;
+                Cookie.cf_legacy := false; Cookie.cf_rl_enabled := false; Cookie.cf_rl_logins := 5%Z; Cookie.cf_rl_window := 5000000000%Z;
+                Cookie.cf_seg_prefix := true; Cookie.cf_rl_ceil := true |} in
+  let r := {| Cookie.r_ep := Cookie.EpLogin; Cookie.r_mp := []; Cookie.r_retry := Some (BytesLit.bs "1"%string); Cookie.r_logincount := None;
+              Cookie.r_has_session := false; Cookie.r_has_login := false; Cookie.r_ingress_ok := true; Cookie.r_prompt := false;
+              Cookie.r_fault := Cookie.CFErr 500%Z |} in
+  Cookie.rs_status (Cookie.handle cfg r) = 307%Z /\
+  map (fun sc => (Cookie.c_name sc, Cookie.c_value sc, Cookie.c_domain sc, Cookie.c_path sc)) (Cookie.rs_cookies (Cookie.handle cfg r))
+    = [(BytesLit.bs "sso.session.retry"%string, Cookie.VLit (BytesLit.bs "2"%string), BytesLit.bs "example.com"%string, BytesLit.bs "/"%string)].
+Proof. vm_compute. split; reflexivity. Qed.
